@@ -5,6 +5,55 @@
 #include "kv/iwal.c"
 #include "iwutils.h"
 #include "probe.h"
+#include <unistd.h>
+
+// Does _rollforward_exl (recover_mode 1) stop at the last savepoint when the log holds a reset mark?
+// The pinned source rebases wmm/fsz to the mark but not fpos, so the loop runs past the recovery point.
+// Log: [SEP SET(off 2 := 3) SAVEPOINT] [SEP RESET] [SEP SET(off 0 := 1) SAVEPOINT] [SEP SET(off 1 := 2)];
+// main file 4096 zero bytes.
+static int replay_rebases_fpos(void) {
+  char dir[] = "/tmp/wal-probe-XXXXXX";
+  if (!mkdtemp(dir)) return -1;
+  char mp[64], wp[64];
+  snprintf(mp, sizeof(mp), "%s/m", dir);
+  snprintf(wp, sizeof(wp), "%s/w", dir);
+  uint8_t log[256], *p = log;
+  WBSEP s0 = { .id = WOP_SEP, .len = sizeof(WBSET) + sizeof(WBSAVEPOINT) }; memcpy(p, &s0, sizeof(s0)); p += sizeof(s0);
+  WBSET w0 = { .id = WOP_SET, .val = 3, .off = 2, .len = 1 }; memcpy(p, &w0, sizeof(w0)); p += sizeof(w0);
+  WBSAVEPOINT sp0 = { .id = WOP_SAVEPOINT, .ts = 1 }; memcpy(p, &sp0, sizeof(sp0)); p += sizeof(sp0);
+  WBSEP s1 = { .id = WOP_SEP, .len = sizeof(WBRESET) }; memcpy(p, &s1, sizeof(s1)); p += sizeof(s1);
+  WBRESET rs = { .id = WOP_RESET }; memcpy(p, &rs, sizeof(rs)); p += sizeof(rs);
+  WBSEP s2 = { .id = WOP_SEP, .len = sizeof(WBSET) + sizeof(WBSAVEPOINT) }; memcpy(p, &s2, sizeof(s2)); p += sizeof(s2);
+  WBSET w1 = { .id = WOP_SET, .val = 1, .off = 0, .len = 1 }; memcpy(p, &w1, sizeof(w1)); p += sizeof(w1);
+  WBSAVEPOINT sp = { .id = WOP_SAVEPOINT, .ts = 1 }; memcpy(p, &sp, sizeof(sp)); p += sizeof(sp);
+  WBSEP s3 = { .id = WOP_SEP, .len = sizeof(WBSET) }; memcpy(p, &s3, sizeof(s3)); p += sizeof(s3);
+  WBSET w2 = { .id = WOP_SET, .val = 2, .off = 1, .len = 1 }; memcpy(p, &w2, sizeof(w2)); p += sizeof(w2);
+  static uint8_t zero[4096];
+  int res = -1;
+  FILE *f = fopen(mp, "wb"); if (!f) return -1; fwrite(zero, 1, sizeof(zero), f); fclose(f);
+  f = fopen(wp, "wb"); if (!f) return -1; fwrite(log, 1, (size_t) (p - log), f); fclose(f);
+  int se = dup(2), dn = open("/dev/null", O_WRONLY);
+  dup2(dn, 2); // the replay logs a warning with a timestamp
+  static struct iwkv kv;
+  static struct iwal wal;
+  wal.iwkv = &kv;
+  wal.fh = open(wp, O_RDWR);
+  IWFS_EXT extf;
+  IWFS_EXT_OPTS eo = { .file = { .path = mp, .omode = IWFS_OWRITE | IWFS_OCREATE }, .use_locks = false };
+  if (!iwkv_init() && !iwfs_exfile_open(&extf, &eo)) {
+    iwrc rc = _rollforward_exl(&wal, &extf, 1);
+    extf.close(&extf);
+    f = fopen(mp, "rb");
+    if (f) {
+      uint8_t b[2] = { 9, 9 };
+      if (fread(b, 1, 2, f) == 2 && b[0] == 1) res = (!rc && b[1] == 0) ? 1 : 0;
+      fclose(f);
+    }
+  }
+  dup2(se, 2);
+  close(wal.fh); unlink(mp); unlink(wp); rmdir(dir);
+  return res;
+}
 int main(void) {
   printf("Definition iwu_crc32_table : list Z := [");
   for (int i = 0; i < 256; ++i) {
@@ -18,6 +67,7 @@ int main(void) {
   ZV("iwu_crc32_check_init", iwu_crc32(s, 3, 0x12345678u));
   ZV("WAL_PAGE_SIZE", iwp_page_size());
   ZC(IWKV_ERROR_CORRUPTED_WAL_FILE);
+  ZV("WAL_IWFSM_MAGICK", IWFSM_MAGICK);
   ZC(BKP_STARTED); ZC(BKP_WAL_CLEANUP); ZC(BKP_MAIN_COPY); ZC(BKP_WAL_COPY1); ZC(BKP_WAL_COPY2);
   // Does _last_fix_and_reset_points accept a savepoint record that is cut after its first byte?
   // (the WOP_SAVEPOINT case has no `avail < sizeof(WBSAVEPOINT)` test in the pinned source; the model's
@@ -30,6 +80,11 @@ int main(void) {
     off_t fpos = -1, rpos = -1;
     _last_fix_and_reset_points(0, log, sizeof(sep) + 6, &fpos, &rpos);
     ZV("WAL_SCAN_SP_CHECKS_AVAIL", fpos == 0 ? 1 : 0);
+  }
+  {
+    int r = replay_rebases_fpos();
+    if (r < 0) return 3;
+    ZV("WAL_REPLAY_REBASES_FPOS", r);
   }
   return 0;
 }
